@@ -10,10 +10,10 @@ export CARGO_TARGET_DIR=$W/target
 demos=$(grep -E "^\+\s*(async )?fn [a-z0-9_]+\(" $O/demo.diff | sed -E 's/.*fn ([a-z0-9_]+)\(.*/\1/' | sort -u | tr '\n' ' ')
 git apply $O/demo.diff || { echo "NOT-CONFIRMED demo does not apply"; exit 1; }
 cargo test --offline -p $CRATE --lib 2>&1 > $O/run_orig.log
-f0=$(grep -cE "^test [^ ]+ \.\.\. FAILED" $O/run_orig.log)
+f0=$(grep -cE "^test [^ ]+( - should panic)? \.\.\. FAILED" $O/run_orig.log)
 git apply $O/patch.diff || { echo "NOT-CONFIRMED patch does not apply on top of demo"; git checkout -- .; exit 1; }
 cargo test --offline -p $CRATE --lib 2>&1 > $O/run_mut.log
-failed=$(grep -E "^test [^ ]+ \.\.\. FAILED" $O/run_mut.log | sed -E 's/^test ([^ ]+) .*/\1/' | awk -F:: '{print $NF}' | sort -u | tr '\n' ' ')
+failed=$(grep -E "^test [^ ]+( - should panic)? \.\.\. FAILED" $O/run_mut.log | sed -E 's/^test ([^ ]+) .*/\1/' | awk -F:: '{print $NF}' | sort -u | tr '\n' ' ')
 git checkout -- . ; git clean -fdq -e out -e target
 ok=1
 [ "$f0" = "0" ] || ok=0
